@@ -122,6 +122,16 @@ def run(tier, seed, out):
     kit.log(f"C15: TLC generated {len(cases)} cases ({gen.wall:.1f}s)")
     recs = kit.drive("harness.c15", "drive_case", cases, None, chunk=300)
     out.evaluations += len(recs)
+
+    def corrupt(r):      # one returned coefficient replaced by "coefficient + 1"
+        if r["kind"] == "coeff" and r["res"].get("r") == "ok" and r["res"]["coeffs"] and r["tgt"] == ["ALL"]:
+            c = r["res"]["coeffs"][0]
+            c["coeff"] = {"t": "Sum", "c": [c["coeff"], {"t": "Const", "v": {"k": "int", "n": 1, "d": 1}}]}
+            return r
+        return None
+    out.extra["corrupted_records_rejected"] = kit.corruption_control(
+        "C15_Judge", "C15_Judge", recs, corrupt, wd,
+        flagged=lambda v: v.get("v") not in ("OK", "SKIP", "REFUSED"))
     judge(out, recs, wd)
     for r in recs:
         out.note_case({k: r[k] for k in r if k not in ("res", "id")})
